@@ -6,11 +6,13 @@ One lemma per expression form: if the inferrer accepts the form and the sub-expr
 -/
 namespace AasVerif.Expr
 
-variable {key : Expr → Text} {Γ : TEnv} {F : Facts} {ρ : Env}
+variable {κ : Type} [DecidableEq κ]
+
+variable {key : Expr → κ} {Γ : TEnv} {F : Facts κ} {ρ : Env}
 
 theorem fact_ne_none (inv : Inv key Γ F ρ) {e : Expr} (hk : key e ∈ F) {v : Val} (hv : eval ρ e = .val v) :
     v ≠ .none := by
-  obtain ⟨w, hw, hne⟩ := inv.facts _ hk
+  obtain ⟨w, hw, hne⟩ := inv.fact_val hk
   rw [hv] at hw
   cases hw
   exact hne
@@ -110,7 +112,7 @@ theorem member_good {i : Expr} {n : Text} {τ : Ty} (inv : Inv key Γ F ρ)
       | set _ => simp [memberRes] at h
       | opt _ => simp [memberRes] at h
 
-theorem strip_isFn {F : Facts} {k : Text} {τ : Ty} (h : τ.isFn = true) : strip F k τ = τ := by
+theorem strip_isFn {F : Facts κ} {k : κ} {τ : Ty} (h : τ.isFn = true) : strip F k τ = τ := by
   cases τ <;> simp_all [strip, Ty.isFn]
 
 theorem isFn_loose {τ : Ty} (h : τ.isFn = true) : τ.isLoose = true := by
@@ -381,7 +383,7 @@ theorem impl_good {a c : Expr} {τ : Ty} (hk : Function.Injective key) (inv : In
       cases hea : eval ρ a with
       | val av =>
         by_cases ht : av.truthy ρ.fops = true
-        · have := (ihc tc (inv.implFacts hk hea ht) hc).1
+        · have := (ihc tc (inv.implFacts hk hea ht ha) hc).1
           simpa [eval, hea, ht] using this
         · simp [eval, hea, ht, Out.ofBool]
       | noneDeref => exact absurd hea ga
@@ -409,7 +411,7 @@ theorem and_cons_ne {e : Expr} {es : List Expr} (hk : Function.Injective key) (i
         cases hev : eval ρ e with
         | val v =>
           by_cases ht : v.truthy ρ.fops = true
-          · simpa [ht] using ihes (inv.andFact hk hev ht) hes
+          · simpa [ht] using ihes (inv.andFact hk hev ht ⟨F, te, he⟩) hes
           · simp [ht]
         | noneDeref => exact absurd hev ge
         | _ => simp
@@ -438,7 +440,7 @@ theorem or_cons_ne {e : Expr} {es : List Expr} (hk : Function.Injective key) (in
           by_cases ht : v.truthy ρ.fops = true
           · simp [ht]
           · have hf : v.truthy ρ.fops = false := by simpa using ht
-            simpa [ht] using ihes (inv.orFact hk hev hf) hes
+            simpa [ht] using ihes (inv.orFact hk hev hf ⟨F, te, he⟩) hes
         | noneDeref => exact absurd hev ge
         | _ => simp
 
@@ -529,7 +531,7 @@ theorem evalArgs_err_not_val (ρ : Env) : ∀ (args : List Expr) (o : Out), eval
         exact evalArgs_err_not_val ρ es _ hr
     | _ => simp [he] at h; subst h; simp
 
-theorem isValTy_strip_not_fn {F : Facts} {k : Text} {τ : Ty} (h : τ.isValTy = true) : (strip F k τ).isFn = false := by
+theorem isValTy_strip_not_fn {F : Facts κ} {k : κ} {τ : Ty} (h : τ.isValTy = true) : (strip F k τ).isFn = false := by
   cases τ with
   | opt τ' =>
     simp only [strip]
@@ -733,5 +735,118 @@ theorem funCall_good {n : Text} {args : List Expr} {τ : Ty} (inv : Inv key Γ F
             | method _ _ => simp at h
             | _ => simp [Ty.isFn] at hfn
           · rw [hl] at hv; cases hv
+
+/-- what the evaluation of a generator yields when the inferrer bound `x : τx` -/
+def GenGood (D : Decls) (x : Text) (τx : Ty) : GenRes → Prop
+  | .items z items => z = x ∧ ∀ item, item ∈ items → HasTy D item τx
+  | .range z _ _ => z = x ∧ (τx = .prim .int ∨ τx = .prim .length)
+  | .err o => o ≠ .noneDeref
+
+theorem forEach_good {y x : Text} {it : Expr} {τx : Ty}
+    (ihit : ∀ ti, infer key Γ F it = .ok ti → Good Γ.decls (eval ρ it) ti)
+    (h : inferGen key Γ F (.forEach y it) = .ok (x, τx)) :
+    Γ.find x = none ∧ GenGood Γ.decls x τx (evalGen ρ (.forEach y it)) := by
+  simp only [inferGen] at h
+  split at h
+  · simp at h
+  · rename_i hfind
+    cases hi : infer key Γ F it with
+    | err es => simp [hi] at h
+    | crash s => simp [hi] at h
+    | ok ti =>
+      have g := ihit ti hi
+      simp only [hi] at h
+      cases ti <;> simp at h
+      rename_i items
+      obtain ⟨rfl, rfl⟩ := h
+      refine ⟨by simpa using hfind, ?_⟩
+      simp only [evalGen]
+      cases he : eval ρ it with
+      | val iv =>
+        rcases g.2 iv he with hl | hty
+        · simp [Ty.isLoose] at hl
+        · cases hty with
+          | list hall => simpa [iterItems, GenGood] using hall
+      | noneDeref => exact absurd he g.1
+      | _ => simp [GenGood]
+
+theorem forRange_good {y x : Text} {a b : Expr} {τx : Ty}
+    (iha : ∀ ti, infer key Γ F a = .ok ti → Good Γ.decls (eval ρ a) ti)
+    (ihb : ∀ ti, infer key Γ F b = .ok ti → Good Γ.decls (eval ρ b) ti)
+    (h : inferGen key Γ F (.forRange y a b) = .ok (x, τx)) :
+    Γ.find x = none ∧ GenGood Γ.decls x τx (evalGen ρ (.forRange y a b)) := by
+  simp only [inferGen] at h
+  split at h
+  · simp at h
+  · rename_i hfind
+    cases ha : infer key Γ F a with
+    | err es => simp [ha] at h
+    | crash s => simp [ha] at h
+    | ok ta =>
+      cases hb : infer key Γ F b with
+      | err es => simp [ha, hb] at h
+      | crash s => simp [ha, hb] at h
+      | ok tb =>
+        have ga := (iha ta ha).1
+        have gb := (ihb tb hb).1
+        simp only [ha, hb] at h
+        have hx : y = x ∧ (τx = .prim .int ∨ τx = .prim .length) := by
+          repeat' split at h
+          all_goals first | (simp at h; done) | (simp at h; exact ⟨h.1, by rw [← h.2]; simp⟩)
+        obtain ⟨rfl, hτ⟩ := hx
+        refine ⟨by simpa using hfind, ?_⟩
+        simp only [evalGen]
+        cases hea : eval ρ a with
+        | val av =>
+          cases heb : eval ρ b with
+          | val bv =>
+            simp only
+            cases rangeArg av <;> cases rangeArg bv <;> simp [GenGood, hτ]
+          | noneDeref => exact absurd heb gb
+          | _ => simp [GenGood]
+        | noneDeref => exact absurd hea ga
+        | _ => simp [GenGood]
+
+theorem any_good {g : Gen} {c : Expr} {x : Text} {τx τ : Ty} (inv : Inv key Γ F ρ)
+    (hx : Γ.find x = none) (hgen : GenGood Γ.decls x τx (evalGen ρ g))
+    (hbody : ∀ item, HasTy Γ.decls item τx → eval (ρ.bind x item) c ≠ .noneDeref) (hτ : τ = .bool) :
+    Good Γ.decls (eval ρ (.any g c)) τ := by
+  subst hτ
+  refine good_loose ?_ (by simp [Ty.bool, Ty.isLoose])
+  simp only [eval]
+  cases hg : evalGen ρ g with
+  | items z items =>
+    simp only [hg, GenGood] at hgen
+    obtain ⟨rfl, hall⟩ := hgen
+    exact quantLoop_ne _ _ _ items (fun item hi => hbody item (hall item hi))
+  | range z s n =>
+    simp only [hg, GenGood] at hgen
+    obtain ⟨rfl, hτ⟩ := hgen
+    refine rangeLoop_ne _ _ _ (fun i => hbody (.int i) ?_) n s
+    rcases hτ with rfl | rfl
+    · exact HasTy.int i
+    · exact HasTy.length i
+  | err o => simpa [hg, GenGood] using hgen
+
+theorem all_good {g : Gen} {c : Expr} {x : Text} {τx τ : Ty} (inv : Inv key Γ F ρ)
+    (hx : Γ.find x = none) (hgen : GenGood Γ.decls x τx (evalGen ρ g))
+    (hbody : ∀ item, HasTy Γ.decls item τx → eval (ρ.bind x item) c ≠ .noneDeref) (hτ : τ = .bool) :
+    Good Γ.decls (eval ρ (.all g c)) τ := by
+  subst hτ
+  refine good_loose ?_ (by simp [Ty.bool, Ty.isLoose])
+  simp only [eval]
+  cases hg : evalGen ρ g with
+  | items z items =>
+    simp only [hg, GenGood] at hgen
+    obtain ⟨rfl, hall⟩ := hgen
+    exact quantLoop_ne _ _ _ items (fun item hi => hbody item (hall item hi))
+  | range z s n =>
+    simp only [hg, GenGood] at hgen
+    obtain ⟨rfl, hτ⟩ := hgen
+    refine rangeLoop_ne _ _ _ (fun i => hbody (.int i) ?_) n s
+    rcases hτ with rfl | rfl
+    · exact HasTy.int i
+    · exact HasTy.length i
+  | err o => simpa [hg, GenGood] using hgen
 
 end AasVerif.Expr
